@@ -133,6 +133,7 @@ func (e *Engine) initStubs() {
 		}
 		return tb.Bool(types.Identical(iv.T, e.runtimeErrorType()))
 	})
+	e.stub(V+"Self", func(e *Engine, st *State, th *Thread, c *callCtx) Value { return tb.Int64(int64(th.ID)) })
 	e.stub(V+"Symbolic", func(e *Engine, st *State, th *Thread, c *callCtx) Value { return tb.True })
 	e.stub(V+"Cut", func(e *Engine, st *State, th *Thread, c *callCtx) Value {
 		label, _ := c.args[0].(StrV).constString()
